@@ -20,8 +20,14 @@ class C06(ProgProp):
             nv = self.variants_quick if tier == "quick" else self.variants_thorough
             return {"spec": spec, "variants": [{"conv": ["call", "value", "wrapped"][i % 3], "prio": g.gen_prio(rng, spec["kinds"])}
                                                for i in range(nv)]}
+        from .. import gen as g
+        if k % 100 == 37:
+            return self.motif_case(rng, tier, g.motif_wide(rng, "ctx" if k % 200 == 37 else "na"))
+        if k % 16 == 5:
+            return self.motif_case(rng, tier, g.motif_unnested_ctx(rng))
+        if k % 16 == 13:
+            return self.motif_case(rng, tier, g.motif_sync_then_ctx(rng))
         if rng.random() < 0.06:
-            from .. import gen as g
             spec = g.motif_exit_fault(rng)
             nv = self.variants_quick if tier == "quick" else self.variants_thorough
             return {"spec": spec, "variants": [{"conv": ["call", "value", "wrapped"][i % 3], "prio": g.gen_prio(rng, spec["kinds"])}
